@@ -28,6 +28,19 @@ TEXT_POOL = ['', 'a', 'hello', 'x y', ' lead', 'trail ', '<&>"\'', 'ünï', '中
              '\U0001f600', ']]>', 'tab\there']
 INT_POOL = [0, 1, -1, 7, 255, 256, -128, 127, -129, 2 ** 31 - 1, 2 ** 31, -2 ** 31, 2 ** 63, 2 ** 63 - 1, -2 ** 63, 2 ** 64 - 1,
             2 ** 64, 10 ** 30, -10 ** 30, 65535, 32767, -32768, 2 ** 32 - 1]
+# the boundary values of every leaf type are those of the C08 generators (c08.int_values / dt_values / dur_values / family_binary)
+INT_EDGE = sorted(set([9, 10, 11, 99, 100, 101, -9, -10, -99, -100]
+                      + [s * 2 ** k + d for k in (7, 8, 15, 16, 31, 32, 63, 64, 100, 128) for d in (-2, -1, 0, 1, 2) for s in (1, -1)]
+                      + [s * 10 ** k + d for k in (1, 2, 3, 5, 9, 10, 18, 19, 20, 38, 39) for d in (-1, 0, 1) for s in (1, -1)]))
+US_EDGE = [0, 1, 5, 9, 10, 99, 100, 999, 1000, 9999, 10000, 99999, 100000, 120000, 123000, 123400, 123450, 123456, 500000, 999999, 249, 248,
+           250000, 999990]
+OFF_EDGE = [None, None, None, 0, 0, 1, -1, 30, -30, 59, -59, 60, -60, 61, -61, 289, -289, 330, -330, 345, 570, -570, -210, 720, -720,
+            839, -839, 840, -840]
+DUR_DAYS = [0, 0, 0, 1, 3, 30, 400, 999999999]
+DUR_SECS = [0, 0, 1, 59, 60, 61, 3599, 3600, 3601, 3661, 86399]
+DUR_US = [0, 0, 1, 5, 249, 1000, 99999, 100000, 500000, 999999]
+BYTES_EDGE = [b'', b'a', b'ab', b'abc', b'abcd', b'\x00', b'\xff', b'\x00\x00\x00', b'\xff\xff\xff', b'\xfb\xff\xbf', b'\xfb', b'\xfb\xf0',
+              b'\x3e\x3f', b'\xf8', b'\xfc', b'\x00\xff\x80', bytes(range(0, 256, 7)), bytes(range(256))]
 
 
 def spyne_leaf_class(name):
@@ -130,7 +143,8 @@ def gen_leaf_value(rng, leaf):
         vals = leaf.get('cust', {}).get('values')
         if vals:
             return ('int', rng.choice(vals))
-        pool = [z for z in INT_POOL + [rng.randint(-10 ** 6, 10 ** 6)] if (lo is None or z >= lo) and (hi is None or z <= hi)]
+        pool = [z for z in INT_POOL + [rng.randint(-10 ** 6, 10 ** 6)] + rng.sample(INT_EDGE, 12)
+                if (lo is None or z >= lo) and (hi is None or z <= hi)]
         for b in (lo, hi):
             if b is not None:
                 pool.extend([b, b])
@@ -149,19 +163,24 @@ def gen_leaf_value(rng, leaf):
     if k == 'bool':
         return ('bool', rng.random() < 0.5)
     if k == 'bytes':
-        return ('bytes', rng.choice([b'', b'a', b'ab', b'abc', b'\x00\xff\x80', bytes(range(0, 256, 7)),
-                                      bytes(rng.randrange(256) for _ in range(rng.randint(1, 9)))]))
+        return ('bytes', rng.choice(BYTES_EDGE + [bytes(rng.randrange(256) for _ in range(rng.choice([1, 2, 3, 4, 5, 6, 7, 30, 31, 32, 58, 100])))
+                                                  for _ in range(6)]))
     if k == 'date':
-        return ('date', gen_date(rng))
+        return ('date', gen_date(rng, top=True))
     if k == 'time':
         return ('time', gen_time(rng))
     if k == 'datetime':
-        off = rng.choice([None, None, 0, 60, -60, 330, -210, -30, 839, -839, 1, -1])
+        off = rng.choice(OFF_EDGE)
         return ('datetime', gen_date(rng) + gen_time(rng) + (off,))
     if k == 'dur':
-        return ('dur', rng.choice([0, 1, 5, 999999, 10 ** 6, 60 * 10 ** 6, 3600 * 10 ** 6, 86400 * 10 ** 6, -1, -10 ** 6, -86400 * 10 ** 6,
-                                   86400 * 10 ** 6 * 400 + 3723000005, 249, 1000249, -3600 * 10 ** 6 - 5,
-                                   rng.randint(-10 ** 13, 10 ** 13)]))
+        # every shape of the (days, seconds, microseconds) fields, zero / non-zero each, both signs; timedelta's own range
+        d, s, us = rng.choice(DUR_DAYS), rng.choice(DUR_SECS), rng.choice(DUR_US)
+        if rng.random() < 0.2:
+            d, s, us = rng.choice([0, rng.randint(0, 400)]), rng.randint(0, 86399), rng.choice([0, rng.randint(0, 999999)])
+        n = (d * 86400 + s) * 10 ** 6 + us
+        if rng.random() < 0.35:
+            n = max(-n, -999999999 * 86400 * 10 ** 6)
+        return ('dur', n)
     if k == 'dec':
         c = leaf.get('cust', {})
         # (values whose str() is in scientific notation are C08's known finding, not repeated here)
@@ -178,8 +197,10 @@ def gen_leaf_value(rng, leaf):
     raise ValueError(k)
 
 
-def gen_date(rng):
+def gen_date(rng, top=False):
     y = rng.choice([1000, 1900, 1970, 1999, 2000, 2020, 2024, 2100, 9998, rng.randint(1000, 9998)])   # (zeep prints years < 1000 unpadded)
+    if top and rng.random() < 0.1:
+        y = 9999
     m = rng.randint(1, 12)
     leap = (y % 4 == 0 and y % 100 != 0) or y % 400 == 0
     dim = [31, 29 if leap else 28, 31, 30, 31, 30, 31, 31, 30, 31, 30, 31][m - 1]
@@ -188,12 +209,17 @@ def gen_date(rng):
 
 def gen_time(rng):
     return (rng.choice([0, 23, rng.randint(0, 23)]), rng.choice([0, 59, rng.randint(0, 59)]), rng.choice([0, 59, rng.randint(0, 59)]),
-            rng.choice([0, 0, 1, 5, 100000, 999999, 500000, 249, rng.randint(0, 999999)]))
+            rng.choice([0, 0, 0, rng.randint(0, 999999)] + rng.sample(US_EDGE, 4)))
 
 
 # ------------------------------------------------------------------ universes
 def is_multi(f):
     return f['max'] is None or f['max'] > 1
+
+
+def wname(f):
+    """the local name of a member on the wire"""
+    return f.get('sub_name') or f['name']
 
 
 def flat_fields(desc, cid):
@@ -202,8 +228,8 @@ def flat_fields(desc, cid):
     return base + c['fields']
 
 
-def gen_universe(rng, n_classes=5, max_fields=4, tns='urn:t', namespaces=('urn:t', 'urn:u', 'urn:v'), model_only=True,
-                 shared_names=('id', 'name', 'value')):
+def gen_universe(rng, n_classes=5, max_fields=4, tns='urn:t', namespaces=('urn:t', 'urn:u', 'urn:v'), model_only=True, allow_sub_ns=False,
+                 shared_names=('id', 'name', 'value'), twins=False):
     """classes with inheritance, XmlAttribute members, wrapped arrays, max_occurs > 1 members, customised
     primitives, simpleContent classes (one XmlData member + attributes), member names shared between classes"""
     classes = []
@@ -216,6 +242,8 @@ def gen_universe(rng, n_classes=5, max_fields=4, tns='urn:t', namespaces=('urn:t
             for j in range(rng.randint(0, 2)):
                 fields.append({'name': 'f%d_%d' % (i, j), 'ty': ('leaf', gen_leaf_type(rng, model_only, simple_content=True)), 'min': rng.choice([0, 0, 1]),
                                'max': 1, 'nillable': True, 'kind': 'attr'})
+                if rng.random() < 0.25:
+                    fields[-1]['sub_name'] = 'w%d_%d' % (i, j)
             rng.shuffle(fields)
             classes.append({'ns': rng.choice(namespaces), 'name': 'K%d' % i, 'parent': None, 'fields': fields})
             data_classes.add(i)
@@ -257,8 +285,33 @@ def gen_universe(rng, n_classes=5, max_fields=4, tns='urn:t', namespaces=('urn:t
                 mx = rng.choice([None, 2, 3])
                 if mn == 1 and rng.random() < 0.3:
                     mn = 2 if mx != 2 else 1
-            fields.append({'name': name, 'ty': ty, 'min': mn, 'max': mx, 'nillable': nil, 'kind': kind})
+            f = {'name': name, 'ty': ty, 'min': mn, 'max': mx, 'nillable': nil, 'kind': kind}
+            # another name / namespace on the wire (Attributes.sub_name, sub_ns): read back through _type_info_alt
+            if rng.random() < (0.18 if kind == 'elem' else 0.3):
+                # (attributes too: the published schema names them by their sub_name as well, C01-9002)
+                f['sub_name'] = 'w%d_%d' % (i, j)
+            if allow_sub_ns and kind == 'elem' and rng.random() < 0.12:
+                # only where no published schema is involved: the XSD emitter ignores sub_ns (known finding)
+                f['sub_ns'] = rng.choice(['urn:w', 'urn:t'])
+            fields.append(f)
+        if force:
+            # the crossing chain also carries renamed members: declared in the base, read through the subclass
+            pf = [g for g in classes[parent]['fields'] if g['kind'] == 'elem']
+            if pf and not any(g.get('sub_name') for g in classes[parent]['fields']):
+                pf[0]['sub_name'] = 'w%d_b' % parent
+                if allow_sub_ns and rng.random() < 0.5:
+                    pf[0]['sub_ns'] = 'urn:w'
         classes.append({'ns': ns, 'name': 'K%d' % i, 'parent': parent, 'fields': fields})
+    if twins and len(namespaces) > 1:
+        # two classes sharing a type name across namespaces (SOAP header blocks must be told apart by {namespace}name)
+        cand = [i for i in range(len(classes)) if i not in data_classes]
+        if cand:
+            q = rng.choice(cand)
+            i = len(classes)
+            fields = [{'name': 'f%d_%d' % (i, j), 'ty': ('leaf', gen_leaf_type(rng, model_only)), 'min': 0, 'max': 1,
+                       'nillable': True, 'kind': 'elem'} for j in range(rng.randint(1, 2))]
+            classes.append({'ns': rng.choice([n for n in namespaces if n != classes[q]['ns']]), 'name': classes[q]['name'],
+                            'parent': None, 'fields': fields, 'twin_of': q})
     # a shared name must stay unique in every flattened class
     desc = {'tns': tns, 'classes': classes}
     for cid in range(len(classes)):
@@ -311,10 +364,19 @@ def gen_service(rng, desc, n_methods=4, allow_headers=True, header_ns_tns=False,
         for j, p in enumerate(returns):
             p['name'] = 'r%d' % j
         ih = oh = []
+        twin = [i for i in hdr_classes if 'twin_of' in desc['classes'][i] and desc['classes'][i]['twin_of'] in hdr_classes]
+
+        def pick():
+            if twin and rng.random() < 0.6:          # same local name, different namespaces: both, or only one of the two
+                t = rng.choice(twin)
+                pair = [t, desc['classes'][t]['twin_of']]
+                rng.shuffle(pair)
+                return pair if rng.random() < 0.6 else pair[:1]
+            return rng.sample(hdr_classes, min(len(hdr_classes), rng.choice([1, 1, 2])))
         if allow_headers and hdr_classes and rng.random() < 0.5:
-            ih = rng.sample(hdr_classes, min(len(hdr_classes), rng.choice([1, 1, 2])))
+            ih = pick()
         if allow_headers and hdr_classes and rng.random() < 0.4:
-            oh = rng.sample(hdr_classes, min(len(hdr_classes), rng.choice([1, 1, 2])))
+            oh = pick()
         methods.append({'name': 'op%d' % i, 'style': style, 'params': params, 'returns': returns, 'in_header': ih, 'out_header': oh})
     return {'methods': methods}
 
@@ -463,6 +525,10 @@ def member_type(f, ty_of):
         kw['nillable'] = False
     if f['max'] != 1:
         kw['max_occurs'] = 'unbounded' if f['max'] is None else f['max']
+    if f.get('sub_name'):
+        kw['sub_name'] = f['sub_name']
+    if f.get('sub_ns'):
+        kw['sub_ns'] = f['sub_ns']
     if kw:
         t = t.customize(**kw)
     if f['kind'] == 'attr':
@@ -492,7 +558,21 @@ def leaf_to_native(v):
     if k in ('int', 'text', 'bool', 'dec', 'dbl'):
         return v[1]
     if k == 'bytes':
-        return [v[1]]
+        # a ByteArray value is a sequence of chunks: which chunking stands for the bytes is picked by the bytes themselves
+        b = v[1]
+        n = len(b)
+        mode = (n + sum(b)) % 5
+        if n == 0:
+            return [[b''], [], (b'', b''), [b''], (b'',)][mode]
+        if mode == 0:
+            return [b]
+        if mode == 1:
+            return (b[:n // 2], b[n // 2:])
+        if mode == 2:
+            return [b[:1], b'', b[1:]]
+        if mode == 3:
+            return [b[:n // 3], b[n // 3:2 * n // 3], b[2 * n // 3:]]
+        return tuple(bytes([x]) for x in b) if n <= 12 else (b[:7], b[7:8], b[8:])
     if k == 'date':
         return datetime.date(*v[1])
     if k == 'time':
@@ -698,8 +778,9 @@ G_KIND = {'elem': 'KElem', 'attr': 'KAttr', 'data': 'KData'}
 
 
 def g_field(f, T):
-    return '(mkfield %s %s %s %s %s %s)' % (gtext(f['name']), g_ty(f['ty'], T), gz(f['min']), gopt(f['max'], gz),
-                                            gbool(f['nillable']), G_KIND[f['kind']])
+    return '(mkfield %s %s %s %s %s %s %s %s)' % (gtext(f['name']), g_ty(f['ty'], T), gz(f['min']), gopt(f['max'], gz),
+                                                  gbool(f['nillable']), G_KIND[f['kind']],
+                                                  gopt(f.get('sub_name'), gtext), gopt(f.get('sub_ns'), gtext))
 
 
 def g_universe(desc, classes):
@@ -755,6 +836,52 @@ def g_xml(e):
         atts.append('(%s, %s, %s)' % (gtext(qa.namespace or ''), gtext(qa.localname), gtext(v)))
     return '(XElt %s %s %s %s %s)' % (gtext(q.namespace or ''), gtext(q.localname), glist(atts),
                                       gopt(e.text, gtext), glist([g_xml(c) for c in e]))
+
+
+def g_doc(e):
+    """a node of a tree parsed with a parser that keeps everything -> Call.dnode term (character data: .text and the tails)"""
+    from lxml import etree
+    if e.tag is etree.Comment:
+        return 'DComment'
+    if e.tag is etree.ProcessingInstruction:
+        return 'DPI'
+    if not isinstance(e.tag, str):
+        raise ValueError('node kind outside the document model: %r' % e)
+    q = etree.QName(e)
+    atts = []
+    for k, v in sorted(e.attrib.items()):
+        qa = etree.QName(k)
+        atts.append('(%s, %s, %s)' % (gtext(qa.namespace or ''), gtext(qa.localname), gtext(v)))
+    content = ['(DText %s)' % gtext(e.text)] if e.text else []
+    for c in e:
+        content.append(g_doc(c))
+        if c.tail:
+            content.append('(DText %s)' % gtext(c.tail))
+    return '(DElt %s %s %s %s)' % (gtext(q.namespace or ''), gtext(q.localname), glist(atts), glist(content))
+
+
+def decorate(rng, root, n=None):
+    """XML comments and processing instructions are not part of what a document denotes under XML Schema: put some
+    between the items of arrays, between members, inside character data, in the envelope.  Returns what was done."""
+    from lxml import etree
+    elts = [e for e in root.iter() if isinstance(e.tag, str)]
+    done = []
+    for _ in range(n or rng.randint(1, 3)):
+        e = rng.choice(elts)
+        if rng.random() < 0.75:
+            node = etree.Comment(rng.choice([' c ', ' 3 ', 'true', ' <x/> ', '', 'P1D', ' 2020-01-01 ']))
+        else:
+            node = etree.ProcessingInstruction('app', rng.choice(['x="1"', '7', 'abc']))
+        if len(e) == 0 and e.text and rng.random() < 0.8:
+            k = rng.randint(0, len(e.text))
+            node.tail = e.text[k:] or None
+            e.text = e.text[:k] or None
+            e.insert(0, node)
+            done.append('%s inside the text of %s' % ('comment' if node.tag is etree.Comment else 'PI', etree.QName(e).localname))
+        else:
+            e.insert(rng.randrange(len(e) + 1), node)
+            done.append('%s among the children of %s' % ('comment' if node.tag is etree.Comment else 'PI', etree.QName(e).localname))
+    return done
 
 
 G_STYLE = {'wrapped': 'SWrapped', 'bare': 'SBare', 'out_bare': 'SOutBare'}
@@ -878,8 +1005,12 @@ class DecodeError(Exception):
     pass
 
 
-def _frac(us):
-    return ('.%06d' % us).rstrip('0') if us else ''
+def _frac(us, rng=None):
+    t = ('.%06d' % us).rstrip('0') if us else ''
+    if rng is not None and rng.random() < 0.25:
+        # trailing zeros (up to microsecond precision) and an explicit zero fraction are literals of the same value
+        t = (t or '.') + '0' * rng.randint(1 if not t else 0, 7 - len(t or '.'))
+    return t
 
 
 def _off(off, rng=None):
@@ -896,6 +1027,8 @@ def ref_leaf_text(v, rng=None):
     equivalent literals the schema allows (boolean 1/0, dateTime Z, trimmed fraction digits)"""
     k = v[0]
     if k == 'int':
+        if rng is not None and v[1] >= 0 and rng.random() < 0.2:
+            return '+%d' % v[1]                      # xs:integer allows an explicit plus sign
         return str(v[1])
     if k == 'text':
         return v[1]
@@ -917,10 +1050,10 @@ def ref_leaf_text(v, rng=None):
         return '%04d-%02d-%02d' % v[1]
     if k == 'time':
         h, mi, s, us = v[1]
-        return '%02d:%02d:%02d%s' % (h, mi, s, _frac(us))
+        return '%02d:%02d:%02d%s' % (h, mi, s, _frac(us, rng))
     if k == 'datetime':
         y, m, d, h, mi, s, us, off = v[1]
-        return '%04d-%02d-%02dT%02d:%02d:%02d%s%s' % (y, m, d, h, mi, s, _frac(us), _off(off, rng))
+        return '%04d-%02d-%02dT%02d:%02d:%02d%s%s' % (y, m, d, h, mi, s, _frac(us, rng), _off(off, rng))
     if k == 'dur':
         n = v[1]
         neg = n < 0
@@ -938,7 +1071,7 @@ def ref_leaf_text(v, rng=None):
         if mm:
             t += '%dM' % mm
         if ss or us:
-            t += '%d%sS' % (ss, _frac(us))
+            t += '%d%sS' % (ss, _frac(us, rng if us else None))
         if t:
             out += 'T' + t
         if out in ('P', '-P'):
@@ -1084,23 +1217,23 @@ def declaring(desc, cid):
 
 def ref_encode_members(desc, classes, cid, e, vals, rng, tns, fields=None, ns_of=None, type_of=None):
     for (dcid, f), x in zip(fields if fields is not None else declaring(desc, cid), vals):
-        fns = ns_of(dcid) if ns_of else desc['classes'][dcid]['ns']
+        fns = f.get('sub_ns') or (ns_of(dcid) if ns_of else desc['classes'][dcid]['ns'])   # the schema qualifies the member so
         T = type_of(dcid, f) if type_of else classes[dcid]._type_info[f['name']]
         if f['kind'] == 'attr':
             if x[0] != 'none':
-                e.set(f['name'], ref_leaf_text(x, rng))
+                e.set(wname(f), ref_leaf_text(x, rng))
         elif f['kind'] == 'data':
             if x[0] != 'none':
                 e.text = ref_leaf_text(x, rng)
         elif is_multi(f):
             if x[0] == 'list':
                 for y in x[1]:
-                    e.append(ref_encode(desc, classes, f['ty'], T, fns, f['name'], y, rng, tns))
+                    e.append(ref_encode(desc, classes, f['ty'], T, fns, wname(f), y, rng, tns))
         else:
             if x[0] == 'none':
                 if f['min'] <= 0 and (not f['nillable'] or not nil_ok(desc, f['ty']) or rng.random() < 0.6):
                     continue                                   # absent optional element
-            e.append(ref_encode(desc, classes, f['ty'], T, fns, f['name'], x, rng, tns))
+            e.append(ref_encode(desc, classes, f['ty'], T, fns, wname(f), x, rng, tns))
 
 
 def is_nil(e):
@@ -1140,15 +1273,15 @@ def ref_decode_members(desc, classes, cid, e, tns, fields=None, ns_of=None, type
     vals = []
     used_atts = set()
     for dcid, f in (fields if fields is not None else declaring(desc, cid)):
-        fns = ns_of(dcid) if ns_of else desc['classes'][dcid]['ns']
+        fns = f.get('sub_ns') or (ns_of(dcid) if ns_of else desc['classes'][dcid]['ns'])
         T = type_of(dcid, f) if type_of else classes[dcid]._type_info[f['name']]
         if f['kind'] == 'attr':
-            if f['name'] in e.attrib:
-                used_atts.add(f['name'])
-                vals.append(ref_parse_leaf(f['ty'][1], e.attrib[f['name']]))
+            if wname(f) in e.attrib:
+                used_atts.add(wname(f))
+                vals.append(ref_parse_leaf(f['ty'][1], e.attrib[wname(f)]))
             else:
                 if f['min'] > 0:
-                    raise DecodeError('required attribute %s missing' % f['name'])
+                    raise DecodeError('required attribute %s missing' % wname(f))
                 vals.append(('none',))
         elif f['kind'] == 'data':
             if kids:
@@ -1156,11 +1289,11 @@ def ref_decode_members(desc, classes, cid, e, tns, fields=None, ns_of=None, type
             vals.append(ref_parse_leaf(f['ty'][1], e.text))
         else:
             items = []
-            while pos < len(kids) and kids[pos].tag == _q(fns, f['name']):
+            while pos < len(kids) and kids[pos].tag == _q(fns, wname(f)):
                 items.append(ref_decode(desc, classes, f['ty'], T, kids[pos], tns, f['nillable']))
                 pos += 1
             if len(items) < f['min']:
-                raise DecodeError('%d occurrences of %s, minOccurs=%d' % (len(items), f['name'], f['min']))
+                raise DecodeError('%d occurrences of %s, minOccurs=%d' % (len(items), _q(fns, wname(f)), f['min']))
             if f['max'] is not None and len(items) > f['max']:
                 raise DecodeError('%d occurrences of %s, maxOccurs=%d' % (len(items), f['name'], f['max']))
             if is_multi(f):
